@@ -13,9 +13,9 @@ CHECKS = {
   ),
   "C09": dict(
     technique="property-based testing (proptest) with a TypeScript package generator and validity predicates on the re-parsed output (scope analysis), plus the same predicates over the repository's fast-check spec corpus",
-    text="Generated registry packages (declarations of every kind, private/exported, reference chains across declarations, namespaces and files, type/value collisions, qualified names, import types, re-exports, star exports) run through build + build_fast_check_type_graph. Oracles on each emitted module: parses under the source's media type; every identifier that resolved to a module-level binding in the original and is unresolved in the output is a violation; every import / re-export names an export of the emitted counterpart; every relative specifier resolves to a graph module; the source map decodes, every token maps inside the original text, and each identifier token maps onto the same identifier text. Corpus layer: the same predicates over every package of tests/specs/graph/fast_check. Exploration only.",
+    text="Generated registry packages and workspace members (modules in nested directories; declarations of every kind and many shapes - generics with constraint and default, heritage with type arguments, overloads, parameter properties, private constructors, accessors, expando properties, annotated function expressions; private/exported; reference chains across declarations, namespaces and files placed in signature or implementation positions; qualified names, import types, star / by-name / namespace re-exports in every module, imports through re-exporting modules) run through build + build_fast_check_type_graph. Oracles on each emitted module: parses under the source's media type; every identifier that resolved to a module-level binding in the original and is unresolved in the output is a violation; every import / re-export names a grounded export of the emitted counterpart (least fixpoint over the emitted modules); every relative specifier resolves to a graph module; the source map decodes, every token maps inside the original text, and each identifier token maps onto the same identifier text. Corpus layer: the same predicates over every package of tests/specs/graph/fast_check. Exploration only.",
     design_ref="DESIGN.md §4 C09",
-    note="Trusted: deno_ast/swc parser and scope analysis on the observing side; the sourcemap decoder (engine/src/props/c09.rs, hand written VLQ). One known finding (private member of an ambient class) is keyed by signature.",
+    note="Trusted: deno_ast/swc parser and scope analysis on the observing side; the sourcemap decoder (engine/src/props/c09.rs, hand written VLQ). Known findings (private member of an ambient class; a name requested inside a cycle of re-exports) are keyed by signature.",
   ),
   "C10": dict(
     technique="property-based testing (proptest) with a grammar over emitted ASTs: every node of every emitted module must be derivable from the 'declaration-only, explicitly typed' grammar, else a diagnostic must exist; generated packages plus the spec corpus",
@@ -25,13 +25,13 @@ CHECKS = {
   ),
   "C11": dict(
     technique="property-based metamorphic testing (proptest): the recording TypeScript generator knows the intended public API; emitted vs original export sets, declaration kinds and span-insensitive signature projections are compared; generated packages plus the spec corpus",
-    text="Oracles: entrypoints export exactly the original names (incl. default and resolved star re-exports), other modules a subset; each retained exported declaration keeps its kind; type annotations, type parameters, heritage clauses and public member signatures equal the source's under span-insensitive comparison modulo the optional/default-parameter normalisation; declarations the generator recorded as neither exported nor referenced from the public API are absent. Exploration only.",
+    text="Oracles: entrypoints export exactly the original names (incl. default and resolved star re-exports), other modules a subset; each retained exported declaration keeps its kind; type annotations, type parameters, heritage clauses, constructor signatures, parameter properties (as the property declarations they become) and public member signatures equal the source's under span-insensitive comparison modulo the optional/default-parameter normalisation; a namespace that is public as a whole keeps every exported member; declarations the generator recorded as neither exported nor referenced from the public API are absent. Exploration only.",
     design_ref="DESIGN.md §4 C11",
     note="Trusted: the generator's record of exported / referenced declarations (engine/src/tsgen.rs), swc EqIgnoreSpan.",
   ),
   "C12": dict(
     technique="stateful property-based testing (proptest): generated histories of (build, fast check with shared cache, edit a source, rebuild) compared step by step against cache-less runs and repeated runs",
-    text="Generated worlds of 1-2 registry packages (optionally one star re-exporting the other, several entrypoints, passing and failing), histories of 3-7 steps with edits toggling annotation / export / kind of one declaration. After every fast-check step: all-or-nothing per package (all public modules emitted and no entrypoint diagnostic, or none emitted and every entrypoint carries diagnostics); recorded dependencies equal those declared by the emitted text; cached (cold / warm / stale) output equals cache-less output on emitted set, text, dependencies and source maps; two cache-less runs identical. Exploration only.",
+    text="Generated worlds of 1-3 registry packages (each optionally depending on the next through a star re-export, a by-name re-export or an imported type; imported by the root or reachable only through the dependent; several entrypoints; passing and failing), histories of 3-7 steps with edits toggling annotation / export / kind of one declaration or the root import of a package. After every fast-check step: all-or-nothing per package (all public modules emitted and no entrypoint diagnostic, or none emitted and every entrypoint carries diagnostics); recorded dependencies equal those declared by the emitted text; cached (cold / warm / stale) output equals cache-less output on emitted set, text, dependencies and source maps; two cache-less runs identical. Exploration only.",
     design_ref="DESIGN.md §4 C12",
     note="Trusted: the in-memory FastCheckCache of the harness (engine/src/fc.rs MemCache stores what it is given, keyed as requested).",
   ),
